@@ -24,11 +24,20 @@ TOL = 1e-7
 
 
 def _real(a):
+    """Real representative of a homogeneous coordinate array (a complex multiple of a real vector is the same real object);
+    None if the object is genuinely complex."""
     a = np.asarray(a)
     if np.iscomplexobj(a):
-        if np.any(np.abs(a.imag) > 1e-12):
+        m = np.abs(a).max() if a.size else 0.0
+        if m == 0 or not np.isfinite(m):
+            return a.real.astype(float)
+        if np.all(np.abs(a.imag) <= 1e-9 * m):
+            return a.real.astype(float)
+        piv = a.ravel()[np.abs(a).argmax()]
+        b = a / piv * abs(piv)
+        if np.any(np.abs(b.imag) > 1e-9 * m):
             return None
-        a = a.real
+        a = b.real
     return a.astype(float)
 
 
